@@ -3422,6 +3422,43 @@ impl RaftNode {
             self.persist_term_and_vote(metadata.last_included_term, None)?;
         }
 
+        // Make the installed entries durable BEFORE replacing the in-memory log:
+        // a restart from the WAL must come back with the log this node holds
+        // (and acknowledges to the leader) from now on. Only the part that
+        // differs from the current log is rewritten, so a crash in the middle
+        // never loses an entry both logs share.
+        if let Some(ref wal) = self.wal {
+            let (truncate_from, old_last) = {
+                let persistent = self.persistent.read();
+                let first_diff = entries
+                    .iter()
+                    .find(|e| {
+                        persistent
+                            .log_index_to_array_index(e.index)
+                            .and_then(|i| persistent.log.get(i))
+                            .map_or(true, |old| old.term != e.term)
+                    })
+                    .map(|e| e.index);
+                let snapshot_last = entries.last().map_or(0, |e| e.index);
+                (
+                    first_diff.unwrap_or(snapshot_last + 1),
+                    persistent.array_len_as_log_index(),
+                )
+            };
+            if truncate_from <= old_last {
+                wal.lock()
+                    .append(&crate::raft_wal::RaftWalEntry::LogTruncate {
+                        from_index: truncate_from,
+                    })
+                    .map_err(|e| {
+                        ChainError::StorageError(format!("WAL truncate persist failed: {e}"))
+                    })?;
+            }
+            for entry in entries.iter().filter(|e| e.index >= truncate_from) {
+                self.persist_log_entry(entry)?;
+            }
+        }
+
         // Install the snapshot
         let mut persistent = self.persistent.write();
         // Replace log with entries from snapshot - reset base since we have
